@@ -25,8 +25,10 @@ def context(tier, seed):
 
 
 def units(ctx):
-    for n in (1, 2, 3, 4, 5, 6, 7, 12):
-        for d in (2, 4, 8, 16):
+    nums = (1, 2, 3, 4, 5, 6, 7, 12) if ctx["tier"] == "quick" else tuple(range(1, 17))
+    dens = (2, 4, 8, 16) if ctx["tier"] == "quick" else (1, 2, 4, 8, 16, 32)
+    for n in nums:
+        for d in dens:
             yield (n, d)
     yield from hist.hist_units()
 
@@ -62,7 +64,7 @@ def gen_cases(unit, ctx):
 
 
 def sig_events(sc, n, d):
-    conflict = (n + 1, d) if n < 12 else (n - 1, d)
+    conflict = (n + 1, d) if n != 12 else (n - 1, d)
     other_den = (n, 2 if d != 2 else 4)
     ev = []
     for a, t in zip(sc[0::2], sc[1::2]):
